@@ -296,6 +296,34 @@ func Run(r *core.Run) {
 				v2 := build(other, nil, nil, patch)
 				v2["revealValue"] = valid["revealValue"]
 				add("key-substituted/resigned-old-reveal", ops.Bytes(v2))
+				// two key members whose names differ only in letter case, one holding the owner's public key and one the signer's own: a
+				// decoder that matches names case-insensitively and one that matches them exactly pick different keys; signed by the other key
+				{
+					keyName := "recoveryKey"
+					if typ == operation.TypeUpdate {
+						keyName = "updateKey"
+					}
+					forged := build(other, nil, nil, patch)
+					fsd := strings.Split(forged["signedData"].(string), ".")
+					fpay, _ := enc.DecodeString(fsd[1]) // canonical payload carrying the other key under the exact name
+					ownerKey := string(ops.Canon(signer.JWKMap()))
+					otherKey := string(ops.Canon(other.JWKMap()))
+					for vi, variant := range []string{strings.ToUpper(keyName[:1]) + keyName[1:], strings.ToUpper(keyName), strings.ToLower(keyName)} {
+						inner := string(fpay[1 : len(fpay)-1])
+						swapped := strings.Replace(inner, otherKey, ownerKey, 1) // exact name now holds the owner's key
+						for pi, raw := range []string{
+							"{" + inner + `,"` + variant + `":` + ownerKey + "}", `{"` + variant + `":` + ownerKey + "," + inner + "}",
+							"{" + swapped + `,"` + variant + `":` + otherKey + "}", `{"` + variant + `":` + otherKey + "," + swapped + "}"} {
+							v := ops.M{}
+							for k, x := range forged {
+								v[k] = x
+							}
+							v["signedData"] = other.SignCompact(other.Header(), []byte(raw))
+							v["revealValue"] = valid["revealValue"]
+							add(fmt.Sprintf("key-substituted/case-variant-member-%d-%d", vi, pi), ops.Bytes(v))
+						}
+					}
+				}
 				// fully consistent operation by another key (authorized by its own key: may be accepted)
 				add("key-substituted/resigned-new-reveal", ops.Bytes(build(other, nil, nil, patch)))
 				// other key type
